@@ -100,10 +100,10 @@ add("C17", "stateful model-based testing (ValueSet op sequences) + generated tab
     "No inverted ranges / negative CSV numbers (outside documented format); tables without catch-all columns for the equivalences.", ready=True)
 add("C18", "exhaustive pattern-AST x sequence box + generated larger patterns vs Python re reference with brute-force viability",
     "Exploration: every pattern AST up to a bounded size over a small alphabet x every short sequence (exhaustive box), larger generated patterns, and the real level/test-case patterns over all data-unit names: match_symbol, is_complete and valid_next_symbols against the reference.",
-    "Reference = Python re over one character per symbol; '$' only where nothing mandatory follows.", ready=False)
+    "Reference = Python re over one character per symbol; '$' only where nothing mandatory follows.", ready=True)
 add("C19", "generated required-lists x pattern sets vs brute-force reference search (soundness, completeness, minimality)",
     "Exploration: required lists x 1-2 generated patterns x depth limits, plus real level/test-case pattern combinations; result must be a sound supersequence of minimal length, impossibility only when the reference finds none. D4 (greedy cut) is a listed known finding with a semantic signature.",
-    "Reference enumerates supersequences up to a bound; known-finding signature defined over the greedy-constrained solution space.", ready=False)
+    "Reference enumerates supersequences up to a bound; known-finding signature defined over the greedy-constrained solution space.", ready=True)
 add("C20", "stateful model-based testing of writer/reader op sequences + exhaustive bit strings vs a bit-list model",
     "Exploration: ~25k op-sequence machines (writer primitives incl. out-of-range values, bounded blocks, seeks) read back by both readers, exhaustive 0-2 byte files x block lengths x read programs on both readers, exp-Golomb length functions to 2^300.",
     "Reader agreement inside blocks only for lengths >= 0; writer seek only in its caller's pattern.")
